@@ -28,6 +28,20 @@ func main() {
 		gc.Emit(out, res)
 		out.Count("cfg.dupuuid")
 	}
+	// the earliest subscription of the topic never settles what it gets (and is not cancelled until the others have everything):
+	// the other subscriptions must not wait for it
+	for i := 0; i < 3; i++ {
+		sc := gc.Scenario{Buf: i % 2, Persistent: i == 2, Seed: rng.Next(),
+			Subs: []gc.SubSpec{
+				{Topic: 0, Phase: 0, CancelAtRecv: -1, NestedTopic: -1, HoldAll: true, HoldQuiet: true},
+				{Topic: 0, Phase: 0, CancelAtRecv: -1, NestedTopic: -1},
+				{Topic: 0, Phase: 0, CancelAtRecv: -1, NestedTopic: -1, NackFirst: 1}},
+			Pubs: []gc.PubSpec{{Topic: 0, Calls: 3, Batch: 1}}}
+		out.Begin(sc.Describe())
+		res := gc.Run(sc)
+		gc.Emit(out, res)
+		out.Count("cfg.first_subscription_holds")
+	}
 	for i := 0; i < n; i++ {
 		sc := gc.Random(rng, f)
 		out.Begin(sc.Describe())
